@@ -38,18 +38,20 @@ class Job:
         self.assumed = list(kw.pop('assumed', []))  # text: assumptions specific to this job
         self.mem = kw.pop('mem', 12)               # GB address-space limit
         self.nondet_static = kw.pop('nondet_static', False)
+        self.expected = list(kw.pop('expected', []))   # obligations whose FAILURE is the documented behaviour (e.g. a documented throw): they MUST fail
         self.optional = kw.pop('optional', False)   # an attempt: a timeout is reported as undecided in the evidence but does not fail the check
         if kw:
             raise TypeError('unknown job options %r' % kw)
 
 
 class Unit:
-    def __init__(self, plan, name, shim, specs=(), harness=(), sroa=False, inline=False, ufmul=False, defines=(), srcs=(), maxb=32, tier='quick'):
+    def __init__(self, plan, name, shim, specs=(), harness=(), sroa=False, inline=False, ufmul=False, pre=(), defines=(), srcs=(), maxb=32, tier='quick'):
         self.plan = plan
         self.name = name
         self.shim = shim              # path relative to props/<id>/ (C++ TU including the real headers)
         self.specs = list(specs)
         self.harness = list(harness)  # C files #included after the generated C
+        self.pre = list(pre)          # C files #included before the generated C (ghost state named in contracts)
         self.sroa = sroa or inline   # IR is post-processed by opt
         self.inline = inline         # -O1 -disable-llvm-passes, then opt -passes=inline,sroa,mem2reg (loop-free shim-level contracts)
         self.defines = list(defines) + (['VF_UFMUL'] if ufmul else [])
